@@ -6,6 +6,7 @@
 // the i-th ScanLock/ResolveLock, forced delivery order of CheckSecondaryLocks answers, and a PrimaryMismatch case.
 // Same RES json shape as the mocktikv driver (internal/zz_verif/gc); timestamps come from unistore's PD.
 //
+// Normalisation N3u: unistore's DeleteRange panics on an empty (unbounded) end key; the wrapper forwards ff ff ff ff instead.
 // Normalisation N1u: unistore's ScanLock ignores StartKey/EndKey (it honours the limit, counted from the region
 // start); the wrapping client asks for everything and applies TiKV's contract itself.
 package main
@@ -29,6 +30,7 @@ import (
 	"github.com/pingcap/kvproto/pkg/kvrpcpb"
 	"github.com/pingcap/log"
 	"github.com/pingcap/tidb/pkg/store/mockstore/unistore"
+	tikverr "github.com/tikv/client-go/v2/error"
 	"github.com/tikv/client-go/v2/kv"
 	"github.com/tikv/client-go/v2/testutils"
 	"github.com/tikv/client-go/v2/tikv"
@@ -98,23 +100,26 @@ type Rec struct {
 	Writes []Write `json:"writes"`
 }
 type Event struct {
-	T      string      `json:"t"`
-	N      int         `json:"n,omitempty"`
-	RS     string      `json:"rs,omitempty"`
-	RE     string      `json:"re,omitempty"`
-	S      string      `json:"s,omitempty"`
-	E      string      `json:"e,omitempty"`
-	Limit  uint32      `json:"limit,omitempty"`
-	MaxVer uint64      `json:"maxver,omitempty"`
-	Keys   []string    `json:"keys,omitempty"`
-	Raw    int         `json:"raw,omitempty"`
-	Infos  [][2]uint64 `json:"infos,omitempty"`
-	TS     uint64      `json:"ts,omitempty"`
-	Commit uint64      `json:"commit,omitempty"`
-	TTL    uint64      `json:"ttl,omitempty"`
-	MinCs  []uint64    `json:"mincs,omitempty"` // checksec: min_commit_ts of the locks returned
-	Async  bool        `json:"async,omitempty"`
-	Err    string      `json:"err,omitempty"`
+	T        string      `json:"t"`
+	N        int         `json:"n,omitempty"`
+	RS       string      `json:"rs,omitempty"`
+	RE       string      `json:"re,omitempty"`
+	S        string      `json:"s,omitempty"`
+	E        string      `json:"e,omitempty"`
+	Limit    uint32      `json:"limit,omitempty"`
+	MaxVer   uint64      `json:"maxver,omitempty"`
+	Keys     []string    `json:"keys,omitempty"`
+	Raw      int         `json:"raw,omitempty"`
+	Infos    [][2]uint64 `json:"infos,omitempty"`
+	TS       uint64      `json:"ts,omitempty"`
+	Commit   uint64      `json:"commit,omitempty"`
+	TTL      uint64      `json:"ttl,omitempty"`
+	MinCs    []uint64    `json:"mincs,omitempty"` // checksec: min_commit_ts of the locks returned
+	Async    bool        `json:"async,omitempty"`
+	Force    bool        `json:"force,omitempty"`    // check: force_sync_commit
+	NonAsync bool        `json:"nonasync,omitempty"` // checksec: a returned lock is not an async-commit lock
+	Notify   bool        `json:"notify,omitempty"`
+	Err      string      `json:"err,omitempty"`
 }
 type Read struct {
 	Key string `json:"key"`
@@ -122,17 +127,18 @@ type Read struct {
 	Res string `json:"res"`
 }
 type Result struct {
-	Case     Case              `json:"case"`
-	SetupErr string            `json:"setup_err,omitempty"`
-	Pre      []Rec             `json:"pre,omitempty"`
-	Post     []Rec             `json:"post,omitempty"`
-	Err      string            `json:"err"`
-	Events   []Event           `json:"events,omitempty"`
-	Subs     [][2]string       `json:"subs,omitempty"`
-	Reads    []Read            `json:"reads,omitempty"`
-	Layout0  []string          `json:"layout0"`
-	Starts   map[string]uint64 `json:"starts,omitempty"`
-	Done     int               `json:"completed_regions,omitempty"`
+	Case        Case              `json:"case"`
+	SetupErr    string            `json:"setup_err,omitempty"`
+	Pre         []Rec             `json:"pre,omitempty"`
+	Post        []Rec             `json:"post,omitempty"`
+	Err         string            `json:"err"`
+	Events      []Event           `json:"events,omitempty"`
+	Subs        [][2]string       `json:"subs,omitempty"`
+	Reads       []Read            `json:"reads,omitempty"`
+	ReadsBefore []Read            `json:"reads_before,omitempty"`
+	Layout0     []string          `json:"layout0"`
+	Starts      map[string]uint64 `json:"starts,omitempty"`
+	Done        int               `json:"completed_regions,omitempty"`
 }
 
 func hx(b []byte) string {
@@ -170,17 +176,17 @@ func (c *uniClient) SendRequestAsync(ctx context.Context, addr string, req *tikv
 func (c *uniClient) SetEventListener(listener tikv.ClientEventListener) {}
 
 type world struct {
-	cluster testutils.Cluster
-	store   *tikv.KVStore
-	mu      sync.Mutex
-	cond    *sync.Cond
-	events  []Event
-	rpcN    int
-	total   int
-	inj     map[int][]string
-	splits  map[string]bool
-	raw     bool
-	order   string
+	cluster     testutils.Cluster
+	store       *tikv.KVStore
+	mu          sync.Mutex
+	cond        *sync.Cond
+	events      []Event
+	rpcN        int
+	total       int
+	inj         map[int][]string
+	splits      map[string]bool
+	raw         bool
+	order       string
 	seenMissing map[uint64]bool // a "lock missing" CheckSecondaryLocks answer was delivered for this start ts
 	seenLocked  map[uint64]bool
 }
@@ -222,10 +228,11 @@ func (w *world) layout() []string {
 	}
 	return r
 }
+
 // the Cluster interface has no lookup by id: every region starts at "" or at a split key
 func (w *world) regionRange(id uint64) (string, string) {
 	w.mu.Lock()
-	cands := [][]byte{{}}
+	cands := [][]byte{{}, codec.EncodeBytes(nil, []byte{0})}
 	for k := range w.splits {
 		cands = append(cands, codec.EncodeBytes(nil, []byte(k)))
 	}
@@ -348,7 +355,7 @@ func (g *gate) SendRequest(ctx context.Context, addr string, req *tikvrpc.Reques
 		resp, err := g.Client.SendRequest(ctx, addr, req, timeout)
 		if err == nil && regionErrOf(resp) == "" {
 			cr := resp.Resp.(*kvrpcpb.CheckTxnStatusResponse)
-			ev := Event{T: "check", S: hx(r.PrimaryKey), TS: r.LockTs, Commit: cr.CommitVersion, TTL: cr.LockTtl}
+			ev := Event{T: "check", S: hx(r.PrimaryKey), TS: r.LockTs, Commit: cr.CommitVersion, TTL: cr.LockTtl, Force: r.ForceSyncCommit}
 			if cr.LockInfo != nil && cr.LockInfo.UseAsyncCommit {
 				ev.Async = true
 				ev.MinCs = []uint64{cr.LockInfo.MinCommitTs}
@@ -396,9 +403,31 @@ func (g *gate) SendRequest(ctx context.Context, addr string, req *tikvrpc.Reques
 		}
 		for _, l := range cr.Locks {
 			ev.MinCs = append(ev.MinCs, l.MinCommitTs)
+			if !missing && !l.UseAsyncCommit {
+				ev.NonAsync = true
+			}
 		}
 		w.events = append(w.events, ev)
 		w.mu.Unlock()
+		return resp, nil
+	case tikvrpc.CmdDeleteRange:
+		n := w.nextRPC()
+		r := req.DeleteRange()
+		fwd := req
+		if len(r.EndKey) == 0 {
+			// N3u: unistore's DeleteRange panics on an unbounded end key ("invalid end key"): forward a key above every test key
+			fwd = tikvrpc.NewRequest(tikvrpc.CmdDeleteRange, &kvrpcpb.DeleteRangeRequest{StartKey: r.StartKey, EndKey: []byte{0xff, 0xff, 0xff, 0xff}, NotifyOnly: r.NotifyOnly}, req.Context)
+		}
+		resp, err := g.Client.SendRequest(ctx, addr, fwd, timeout)
+		if err != nil {
+			return resp, err
+		}
+		if re := regionErrOf(resp); re != "" {
+			w.logEv(Event{T: "delerr", N: n, S: hx(r.StartKey), E: hx(r.EndKey), Err: re})
+			return resp, nil
+		}
+		rs, re := w.regionRange(req.Context.RegionId)
+		w.logEv(Event{T: "delrange", N: n, RS: rs, RE: re, S: hx(r.StartKey), E: hx(r.EndKey), Notify: r.NotifyOnly, Err: resp.Resp.(*kvrpcpb.DeleteRangeResponse).Error})
 		return resp, nil
 	case tikvrpc.CmdPessimisticRollback:
 		r := req.PessimisticRollback()
@@ -639,12 +668,71 @@ func runCase(c *Case) *Result {
 			}
 		}
 	}
+	ctx := context.Background()
+	// audit by snapshot reads (unistore's MvccGetByKey panics on a key removed by DeleteRange)
+	dumpReads := func() []Rec {
+		w.raw = true
+		defer func() { w.raw = false }()
+		snap := w.store.GetSnapshot(w.ts())
+		recs := make([]Rec, 0, len(c.Keys))
+		for _, k := range c.Keys {
+			r := Rec{Key: k, Writes: []Write{}}
+			if e, err := snap.Get(ctx, unhx(k)); err == nil {
+				r.Writes = append(r.Writes, Write{Start: 1, Commit: 2, Kind: "put", Val: hx(e.Value)})
+			} else if !tikverr.IsErrNotFound(err) {
+				r.Writes = append(r.Writes, Write{Kind: "err:" + err.Error()})
+			}
+			recs = append(recs, r)
+		}
+		return recs
+	}
+	if c.Kind == "del" {
+		res.Pre = dumpReads()
+		task := rangetask.NewDeleteRangeTask(w.store, unhx(c.S), unhx(c.E), c.Conc)
+		if err = task.Execute(ctx); err != nil {
+			res.Err = err.Error()
+		}
+		res.Done = task.CompletedRegions()
+		w.mu.Lock()
+		res.Events = w.events
+		w.inj = map[int][]string{}
+		w.mu.Unlock()
+		res.Post = dumpReads()
+		return res
+	}
 	if res.Pre, err = w.dump(c.Keys); err != nil {
 		res.SetupErr = "dump: " + err.Error()
 		return res
 	}
 	fill(res.Pre)
-	ctx := context.Background()
+	now := w.ts()
+	c.ReadTS = []uint64{c.SP, c.SP + 1, now}
+	readAll := func(recs []Rec, before bool) []Read {
+		var out []Read
+		for _, ts := range c.ReadTS {
+			snap := w.store.GetSnapshot(ts)
+			for _, r := range recs {
+				if r.Lock != nil && (before || (r.Lock.Kind != "pess" && r.Lock.Start <= ts)) {
+					continue // before the pass only lock-free keys are read (a reader would resolve locks itself)
+				}
+				e, err := snap.Get(ctx, unhx(r.Key))
+				rd := Read{Key: r.Key, TS: ts}
+				switch {
+				case err == nil:
+					rd.Res = "V" + hex.EncodeToString(e.Value)
+				case tikverr.IsErrNotFound(err):
+					rd.Res = "N"
+				default:
+					rd.Res = "err:" + err.Error()
+				}
+				out = append(out, rd)
+			}
+		}
+		return out
+	}
+	w.raw = true
+	res.ReadsBefore = readAll(res.Pre, true)
+	w.raw = false
 	var subsMu sync.Mutex
 	resolver := tikv.NewRegionLockResolver("verif-gc", w.store)
 	handler := func(ctx context.Context, r kv.KeyRange) (rangetask.TaskStat, error) {
@@ -674,6 +762,11 @@ func runCase(c *Case) *Result {
 		return res
 	}
 	fill(res.Post)
+	if res.Err == "" {
+		w.raw = true
+		res.Reads = readAll(res.Post, false)
+		w.raw = false
+	}
 	return res
 }
 
@@ -731,6 +824,11 @@ func (g *gen) gcCase(class string) *Case {
 		for i := 0; i < 1+g.r.Intn(3); i++ {
 			c.Inj = append(c.Inj, Inject{At: 1 + g.r.Intn(8), Key: h(keys[g.r.Intn(len(keys))])})
 		}
+	case "fallback":
+		c.Limit = uint32(1 + g.r.Intn(6))
+		if g.r.Intn(3) == 0 {
+			c.Inj = append(c.Inj, Inject{At: 1 + g.r.Intn(6), Key: h(keys[g.r.Intn(len(keys))])})
+		}
 	case "conc":
 		c.Conc = 2 + g.r.Intn(6)
 		c.RPT = 1
@@ -771,12 +869,18 @@ func (g *gen) gcCase(class string) *Case {
 		if class == "order" {
 			states = []string{"async-missing", "async-rolledback-sec", "async-committed-sec", "async-all"}
 		}
+		if class == "fallback" { // the owner fell back to 2PC: some keys of the transaction carry plain prewrite locks
+			states = []string{"async-all", "async-all", "async-missing", "async-rolledback-sec", "async-primary-gone"}
+		}
 		state := states[g.r.Intn(len(states))]
 		var secs []string
 		for _, k := range tk[1:] {
 			secs = append(secs, h(k))
 		}
 		pw := func(k string, async bool, withSecs bool) {
+			if class == "fallback" && !withSecs && g.r.Intn(2) == 0 {
+				async = false
+			}
 			o := Op{Op: "prewrite", T: t, Key: h(k), Primary: h(primary), Kind: kind(), Val: val(t, k), Async: async}
 			if withSecs {
 				o.Secs = secs
@@ -837,6 +941,45 @@ func (g *gen) gcCase(class string) *Case {
 	}
 	for _, k := range keys {
 		c.Keys = append(c.Keys, h(k))
+	}
+	sort.Slice(c.Keys, func(i, j int) bool { return bytes.Compare(unhx(c.Keys[i]), unhx(c.Keys[j])) < 0 })
+	return c
+}
+
+// DeleteRangeTask over unistore
+func (g *gen) delCase() *Case {
+	g.id++
+	c := &Case{ID: g.id, Kind: "del", Backend: "unistore", Class: "del", Conc: 1 + g.r.Intn(6)}
+	keys := g.keys(5 + g.r.Intn(10))
+	sp := map[string]bool{}
+	for i := 0; i < g.r.Intn(5); i++ {
+		sp[h(keys[g.r.Intn(len(keys))])] = true
+	}
+	for k := range sp {
+		c.Splits = append(c.Splits, k)
+	}
+	sort.Strings(c.Splits)
+	a, b := keys[g.r.Intn(len(keys))], keys[g.r.Intn(len(keys))]
+	if a > b {
+		a, b = b, a
+	}
+	switch g.r.Intn(4) {
+	case 0:
+		c.S, c.E = "-", "-"
+	case 1:
+		c.S, c.E = h(a), "-"
+	case 2:
+		c.S, c.E = "-", h(b)
+	default:
+		c.S, c.E = h(a), h(b)
+	}
+	for i, k := range keys {
+		c.Script = append(c.Script, Op{Op: "begin", T: i + 1}, Op{Op: "prewrite", T: i + 1, Key: h(k), Primary: h(k), Kind: "put", Val: hx([]byte("d" + k))},
+			Op{Op: "commit", T: i + 1, Key: h(k)})
+		c.Keys = append(c.Keys, h(k))
+	}
+	if g.r.Intn(2) == 0 {
+		c.Inj = append(c.Inj, Inject{At: 1 + g.r.Intn(3), Key: h(string(g.key()))})
 	}
 	sort.Slice(c.Keys, func(i, j int) bool { return bytes.Compare(unhx(c.Keys[i]), unhx(c.Keys[j])) < 0 })
 	return c
@@ -917,6 +1060,8 @@ func main() {
 		{func() *Case { return g.gcCase("order") }, 40},
 		{func() *Case { return g.gcCase("split") }, 25},
 		{func() *Case { return g.gcCase("conc") }, 20},
+		{func() *Case { return g.gcCase("fallback") }, 35},
+		{func() *Case { return g.delCase() }, 20},
 		{func() *Case { return g.mismatchCase() }, 5},
 	}
 	for _, p := range plan {
